@@ -11,16 +11,43 @@ from vlib.gen import graphs as H
 
 PID = "C09"
 TITLE = "Shortest paths are valid edge paths of minimum length"
-LEAN_MODULES = ["Mouette.Props.C09", "Mouette.Props.C09PathMesh", "Mouette.Props.C09Bridge"]
+LEAN_MODULES = ["Mouette.Props.C09", "Mouette.Props.C09PathMesh", "Mouette.Props.C09Bridge", "Mouette.Props.C09Source"]
 REQUIRED_THEOREMS = ["reach_run", "run_terminates", "path_valid", "dijkstra_optimal", "dijkstra_optimal_one",
                      "reachable_iff_walk", "vertex_set_path_valid", "vertex_set_nearest", "popOK_firstMin",
                      "border_path_nearest", "border_none_iff", "build_path_spec", "path_mesh_segments_are_edges",
                      "bridge_relax_sp", "bridge_relax_set", "bridge_step_sp", "bridge_step_set", "bridge_init_sp", "bridge_init_set",
-                     "bridge_item_lt_min", "source_step_preserves_invariant"]
+                     "bridge_item_lt_min", "source_step_preserves_invariant",
+                     # round 4: the glue of paths.py translated imperatively (Generated/C09Glue.lean) + new theorems
+                     "bridge_buildStep", "bridge_buildPath", "bridge_pathTo_sp", "bridge_backSet", "bridge_vertexSet",
+                     "vertexSet_src_empty", "bridge_toBorder", "bridge_borderPick", "bridge_sinkWeight", "weight_modes_agree",
+                     "weight_mode_table", "bridge_argument_tables", "targetsOf_single", "bridge_shortestPath",
+                     "bridge_vertexSet_full", "source_shortest_path_optimal", "shortest_path_targets_independent",
+                     "source_vertex_set_nearest", "vertex_set_start_in_set", "source_export_segments_are_edges"]
+
+# every function / method defined in the files the property is anchored in (mouette/processing/paths.py,
+# mouette/utils/priority_queue.py): translated = a Generated definition is produced from that body on every run and a bridge
+# theorem of Props/C09Bridge / Props/C09Source uses it
+SOURCE_MAP = {
+    "mouette/processing/paths.py::build_path": "translated",
+    "mouette/processing/paths.py::_check_weight_argument": "translated",
+    "mouette/processing/paths.py::shortest_path": "translated",
+    "mouette/processing/paths.py::shortest_path_to_vertex_set": "translated",
+    "mouette/processing/paths.py::shortest_path_to_border": "translated",
+    "mouette/utils/priority_queue.py::PriorityItem.__lt__": "translated",
+    "mouette/utils/priority_queue.py::PriorityQueue.__init__": "modelled",
+    "mouette/utils/priority_queue.py::PriorityQueue.empty": "modelled",
+    "mouette/utils/priority_queue.py::PriorityQueue.get": "modelled",
+    "mouette/utils/priority_queue.py::PriorityQueue.push": "modelled",
+    "mouette/utils/priority_queue.py::PriorityQueue.front": "out-of-scope: not used by paths.py (statement-level translation of the queue is property C20)",
+    "mouette/utils/priority_queue.py::PriorityQueue.pop": "out-of-scope: alias of get, not used by paths.py (property C20)",
+}
 TRUSTED = [
     "Lean 4.33.0 kernel; axioms ⊆ {propext, Classical.choice, Quot.sound}",
-    "hand-written model Mouette/Model/Dijkstra.lean (loop of paths.py:72-84 / 178-190 with lazy deletion, back-tracking 86-94 / "
-    "192-199, virtual sink) tied to mouette/processing/paths.py by the correspondence of this run (validity + exact total weight)",
+    "model Mouette/Model/Dijkstra.lean + PathMesh.lean: both Dijkstra loops, both back-tracking loops, build_path, the single-target "
+    "shortcut, the border glue and the weight / argument tables are re-translated from the working tree on every run "
+    "(Generated/C09Loop.lean, C09Glue.lean) and proved equal to the model (Props/C09Bridge, C09Source); hand-modelled and tied by the "
+    "correspondence of this run only: the iteration order of the `connectivity` dict of dicts (adjOf / sinkAdj), set(targets), the "
+    "coordinate lookup mesh.vertices[i] of build_path, numpy/Attribute indexing of custom weights",
     "heapq abstracted to 'pop returns some pending item of minimum priority' (theorems hold for every such pop)",
     "the graph handed to the model is the implementation's own mesh.edges (edge extraction itself is C01-C03); the oracle "
     "re-derives the edges independently from faces/cells",
@@ -32,7 +59,9 @@ RULE = ("random polylines / oriented manifold surfaces / tet meshes (vlib.gen.me
         "handed over as ints), random start (int or numpy integer), targets as int / numpy integer / list / set / tuple / ndarray incl. "
         "start itself, duplicated targets, all vertices, singleton sets, start inside the set, border query; weights one / length / "
         "dict / Attribute with float, Python-int, numpy-int and fractional (k/4) values incl. zero-weight ties; 20% of the cases run 1-3 "
-        "earlier queries on the SAME mesh object first (histories); optional path polyline. Non-trivial = distinct case, "
+        "earlier queries on the SAME mesh object first (histories); 12% of the meshes carry an edge attribute named 'length' (stored by an "
+        "earlier edge_length() call and stale after 1-3 vertex moves, or holding arbitrary values): lengths are judged on the geometry at the "
+        "time of the query; optional path polyline. Non-trivial = distinct case, "
         "call returned (no error) and some returned path has at least one edge")
 
 _CACHE = {}
@@ -138,6 +167,14 @@ def cases(rng, tier):
             if c is not None:
                 yield c; continue
         case = dict(_gen_query(rng, mesh), mesh=mesh)
+        if rng.random() < 0.12:
+            # history on the MESH: an edge attribute with the library's conventional name 'length' is on the mesh before the query —
+            # stored by an earlier edge_length() call ("query", stale once vertices are moved) or holding arbitrary values; with
+            # weights="length" the path must be shortest for the geometric lengths at the time of the query
+            nvv = len(mesh["V"])
+            store = rng.choice(["query", "query", "arbitrary", "arbitrary", "none"])
+            nmv = rng.choice([1, 2, 3]) if store != "arbitrary" else rng.choice([0, 0, 1])
+            case["geo"] = {"store": store, "moves": [[rng.randrange(nvv), [rng.randrange(-80, 81) / 8 for _ in range(3)]] for _ in range(nmv)]}
         if rng.random() < 0.2:
             # history: earlier queries on the SAME mesh object (connectivity caches, attributes left on the mesh)
             case["pre"] = [_gen_query(rng, mesh) for _ in range(rng.choice([1, 1, 2, 3]))]
@@ -206,24 +243,37 @@ def _call(m, edges, q, name):
     try:
         if q["q"] == "sp":
             res = P.shortest_path(m, start, _targets_arg(q), weights=weights, export_path_mesh=q["export"])
-            if q["export"]: res, pm = res
-            out["paths"] = {str(int(t)): [None if v is None else int(v) for v in p] for t, p in res.items()}
         elif q["q"] == "set":
             res = P.shortest_path_to_vertex_set(m, start, _targets_arg(q), weights=weights, export_path_mesh=q["export"])
-            if q["export"]: pm = res[2]
-            out["ind"] = None if res[0] is None else int(res[0])
-            out["paths"] = {"set": [None if v is None else int(v) for v in res[1]]}
         else:
             res = P.shortest_path_to_border(m, start, weights=weights, export_path_mesh=q["export"])
-            if q["export"]: res, pm = res
-            out["paths"] = {"set": [None if v is None else int(v) for v in res]}
-        if q["export"]:
-            pv = [[H.frac_str(Fraction(float(c))) for c in v] for v in pm.vertices]
-            out["pm"] = [pv, [[int(a), int(b)] for (a, b) in pm.edges]]
-        out["r"] = "ok"
     except Exception as e:  # noqa
         out["r"] = H.exc_token(e)
         out["msg"] = str(e)[:80]
+        return out, wl
+    # the call returned: read the documented shape of the result; anything else is recorded as malformed (a finding of the oracle,
+    # never a crash of the harness)
+    out["r"] = "ok"
+    try:
+        ints = lambda p: [None if v is None else int(v) for v in p]
+        if q["q"] == "sp":
+            if q["export"]: res, pm = res
+            out["paths"] = {str(int(t)): ints(p) for t, p in res.items()}
+        elif q["q"] == "set":
+            if len(res) != (3 if q["export"] else 2): raise ValueError("tuple length")
+            if q["export"]: pm = res[2]
+            out["ind"] = None if res[0] is None else int(res[0])
+            out["paths"] = {"set": ints(res[1])}
+        else:
+            if q["export"]: res, pm = res
+            out["paths"] = {"set": ints(res)}
+        if q["export"]:
+            pv = [[H.frac_str(Fraction(float(c))) for c in v] for v in pm.vertices]
+            out["pm"] = [pv, [[int(a), int(b)] for (a, b) in pm.edges]]
+    except Exception as e:  # noqa
+        out["paths"] = {}
+        out.pop("pm", None)
+        out["malformed"] = f"{type(e).__name__}: {str(e)[:60]}; result {repr(res)[:80]}"
     return out, wl
 
 
@@ -247,6 +297,14 @@ def _run(case):
     if _CACHE.get("k") == key:
         return _CACHE["v"]
     m = _build(case["mesh"])
+    if case.get("geo"):
+        import mouette as M
+        g = case["geo"]
+        if g["store"] == "query": M.attributes.edge_length(m)                 # default: persistent, edge attribute 'length'
+        elif g["store"] == "arbitrary" and len(m.edges) and not m.edges.has_attribute("length"):
+            a = m.edges.create_attribute("length", float, dense=(case["wseed"] % 2 == 0))
+            for e in range(len(m.edges)): a[e] = ((e * 2654435761 + case["wseed"] * 40503) % 97) / 8 - 2
+        for i, pos in g["moves"]: m.vertices[i] = M.Vec(*[float(c) for c in pos])
     edges = [(int(a), int(b)) for (a, b) in m.edges]
     pre = []
     for i, q in enumerate(case.get("pre", [])):
@@ -263,7 +321,7 @@ def _run(case):
 
 def impl_observe(case):
     o = dict(_run(case))
-    o.pop("graph", None); o.pop("msg", None); o.pop("pre", None); o.pop("bflags", None)
+    o.pop("graph", None); o.pop("msg", None); o.pop("pre", None); o.pop("bflags", None); o.pop("malformed", None)
     return json.dumps(o, sort_keys=True)
 
 
@@ -319,7 +377,7 @@ def compare(case, model, impl):
         vpart, _, epart = pm_part.partition(" E:")
         vs = [int(t) for t in vpart[2:].split()]
         es = [[int(x) for x in e.split("-")] for e in epart.split(",") if e]
-        V = case["mesh"]["V"]
+        V = _eff_V(case)
         want_v = [[H.frac_str(Fraction(float(c))) for c in V[v]] for v in vs]
         if o["pm"][0] != want_v: return "exported polyline vertices differ from the model of build_path"
         if o["pm"][1] != es: return f"exported polyline edges differ from the model of build_path: {o['pm'][1][:6]} vs {es[:6]}"
@@ -328,6 +386,7 @@ def compare(case, model, impl):
         return None if o["r"] == toks[0] else f"model {toks[0]} (unreachable target) but implementation gave {o['r']}"
     if o["r"] != "ok":
         return f"model answers {toks[:3]} but implementation raised {o['r']}"
+    if "malformed" in o: return "the implementation's result does not have the documented shape: " + o["malformed"]
     tol = lambda sc: (Fraction(1, 10**9) * sc + Fraction(1, 10**12)) if case["w"] == "length" else 0
     start = case["start"]
     if case["q"] == "sp":
@@ -358,9 +417,16 @@ def compare(case, model, impl):
 # ------------------------------------------------------------------------------------------------
 # oracle: the property, directly on the implementation (independent of the Lean model and of mesh.edges)
 # ------------------------------------------------------------------------------------------------
+def _eff_V(case):
+    """vertex coordinates at the time of the query (after the moves of the `geo` history)"""
+    V = [list(v) for v in case["mesh"]["V"]]
+    for i, pos in (case.get("geo") or {}).get("moves", []): V[i] = [float(c) for c in pos]
+    return V
+
+
 def _oracle_weights(case, E):
     import math
-    V = case["mesh"]["V"]
+    V = _eff_V(case)
     if case["w"] == "one": return [Fraction(1)] * len(E)
     if case["w"] == "length": return [Fraction(math.sqrt(float(H.sq_len(V, a, b)))) for a, b in E]
     return [_custom_weight(a, b, case) for a, b in E]
@@ -401,6 +467,12 @@ def oracle(case):
                         "what": f"{q} query between connected vertices raises {o['r']} ({o.get('msg', '')}) for weights={case['w']}, {shape}",
                         "detail": f"start {start} targets {targets[:6]} tform {case['tform']}"})
         return out
+    if "malformed" in o:
+        connected = (len(reach) == len(targets)) if q == "sp" else bool(reach)
+        if connected:
+            out.append({"key": f"C09/{q}/malformed-result", "what": "the query returned, but not (index,) path(s) (, polyline) in the documented shape",
+                        "detail": o["malformed"]})
+        return out
     if q == "sp":
         paths = o["paths"]
         if sorted(paths.keys(), key=int) != [str(t) for t in sorted(set(targets))]:
@@ -439,7 +511,7 @@ def oracle(case):
                 out.append({"key": f"C09/{q}/start-in-set", "what": "start inside the set but path is not trivial", "detail": str(p)})
     if case["export"] and not out and "pm" in o:
         # the optional polyline: its segments (as coordinate pairs) are exactly the edges of the returned paths
-        V = mesh["V"]
+        V = _eff_V(case)
         co = lambda v: tuple(H.frac_str(Fraction(float(c))) for c in V[v])
         want = sorted(tuple(sorted((co(a), co(b)))) for p in o["paths"].values() for a, b in zip(p, p[1:]))
         pv, pe = o["pm"]
@@ -477,6 +549,7 @@ def classify(case, obs):
     if case["q"] == "sp" and case["targets"] == [case["start"]]: ks.append("start=target")
     if case.get("pre"): ks.append("history:%d-earlier-queries" % len(case["pre"]))
     if case["mesh"].get("vint"): ks.append("int-coordinates")
+    if case.get("geo"): ks.append("history:edge-attr-length=" + case["geo"]["store"] + (",vertices-moved" if case["geo"]["moves"] else ""))
     if case.get("family"): ks.append("family:" + case["family"] + (":start=last" if case["start"] == len(case["mesh"]["V"]) - 1 else ""))
     return ks
 
@@ -497,9 +570,10 @@ def shrink(case, still):
                 trial = dict(c, pre=c["pre"][1:])
                 if still(trial): c = trial
                 else: break
-    if c.get("srep"):
-        trial = {k: v for k, v in c.items() if k != "srep"}
-        if still(trial): c = trial
+    for kk in ("srep", "geo"):
+        if c.get(kk):
+            trial = {k: v for k, v in c.items() if k != kk}
+            if still(trial): c = trial
     ts = list(c["targets"])
     i = 0
     while len(ts) > 1 and i < len(ts):
@@ -517,7 +591,7 @@ def shrink(case, still):
     for st, tg in ((0, [2]), (0, [1, 2]), (0, [2, 1, 0])):
         trial = dict(c, mesh=tiny, start=st, targets=tg[:max(1, len(c["targets"]))] if c["q"] != "border" else [])
         if trial["tform"] in ("int", "npint") and len(trial["targets"]) != 1: trial["tform"] = "list"
-        trial.pop("pre", None)
+        trial.pop("pre", None); trial.pop("geo", None)
         if still(trial): return trial
     return c
 
@@ -527,8 +601,8 @@ def search_on_break(rng, broken, mismatches):
 
 
 def translate():
-    from . import c09_translate
-    return c09_translate.translate()
+    from . import c09_translate, c09_glue
+    return c09_translate.translate() + c09_glue.translate()
 
 
 MANIFEST = {
@@ -541,8 +615,11 @@ MANIFEST = {
                    "0) returns a member of the set at minimum distance with a shortest path to it lying in the original graph; the border query "
                    "is that variant on the end points of the border-flagged edges; the exported polyline (build_path) has exactly the consecutive "
                    "pairs of every path as edges, offset by the running vertex count, each joining adjacent mesh vertices. The model is "
-                   "tied to the Python code by a correspondence on generated meshes (validity + exact total weight) and a direct oracle "
-                   "(independent exact Bellman-Ford)."),
+                   "tied to the Python code (a) by translation: both Dijkstra loops, both back-tracking loops, build_path, the weight-mode "
+                   "dispatch, the single-target shortcut, the border glue and the argument tables are re-extracted from the working tree on "
+                   "every run and proved equal to the model (bridge theorems), so the theorems are restated on the source-level compositions "
+                   "shortestPath_src / vertexSet_full; (b) by a correspondence on generated meshes (validity + exact total weight) and a "
+                   "direct oracle (independent exact Bellman-Ford) for what stays hand-modelled (dict iteration order, heapq)."),
     "level_note": ("Trusted: Lean kernel + propext/Classical.choice/Quot.sound; the hand-written model (checked against the code on the "
                    "cases of each run only); heapq as 'some pending minimum'; float lengths read as exact rationals, float sums compared "
                    "at 1e-9 relative; the graph is the implementation's mesh.edges (oracle re-derives it from faces/cells)."),
